@@ -12,6 +12,7 @@ import (
 	"net"
 	"sync"
 	"time"
+	"verifharness/internal/hx"
 )
 
 type group struct {
@@ -20,18 +21,29 @@ type group struct {
 	active  int
 	waiting map[*pq]int
 	expired bool
+	byTimer bool // expired because the wall-clock fallback fired, not because the run was provably stalled
 }
 
 func newGroup(participants int, d time.Duration) *group {
 	g := &group{active: participants, waiting: map[*pq]int{}}
 	g.c = sync.NewCond(&g.mu)
-	time.AfterFunc(d, func() {
+	time.AfterFunc(hx.D(d), func() { // 10x when the case is re-run alone
 		g.mu.Lock()
+		if !g.expired && g.active > 0 {
+			g.byTimer = true
+		}
 		g.expired = true
 		g.c.Broadcast()
 		g.mu.Unlock()
 	})
 	return g
+}
+
+// timedOut: the run was cut short by the clock (a verdict that is re-examined in a solo re-run)
+func (g *group) timedOut() bool {
+	g.mu.Lock()
+	defer g.mu.Unlock()
+	return g.byTimer
 }
 
 // stalled: called with g.mu held.
